@@ -15,6 +15,9 @@ Streams of C09.
   c09.perm        lines perm                   lines: ','-separated  <dir>:<hex of the line's text>
         out = handler chain of the block as written (outside in, ',') '#' chain of the reordered block
               '#' equal | differ:<request>
+  c09.history     typos scenario written-order how
+        out = r|a per rejected-for-a-typo load made before '#' the probe's observation on the site
+              loaded afterwards '#' casket.ValidDirectives("http") afterwards
 -/
 namespace Driver.C09
 open Casket.Exec Casket.ExecSpec
@@ -170,7 +173,29 @@ def callbacksJudge (f : List String) (out : String) : String :=
     | _, _ => "bad:unparsable:" ++ out
   | _, _ => "bad:unparsable:" ++ out
 
+/-! c09.history  typos scenario written-order how
+      typos: ','-separated words, each the misspelt directive of one rejected load
+      out = r|a per earlier load '#' the probe's observation '#' ValidDirectives("http") afterwards -/
+def parseHistory : List String → Option (List Dir × Scenario)
+  | [typos, name, _, _] => do
+    let s ← scenarios.find? fun s => s.name == name
+    pure (if typos = "" then [] else typos.splitOn ",", s)
+  | _ => none
+
+def historyModel (f : List String) : String :=
+  match parseHistory f with
+  | none => "bad-case"
+  | some (typos, s) =>
+    let r := runHistory D (typos.map typoLoad)
+    historyFlags r.2 ++ "#" ++ pairPrediction r.1 s ++ "#" ++ ",".intercalate r.1
+
+def historyJudge (f : List String) (out : String) : String :=
+  match parseHistory f, out.splitOn "#" with
+  | some (_, s), [_, obs, l] => historyVerdict D s obs (parseChain l)
+  | _, _ => "bad:unparsable:" ++ out
+
 def streams : List Driver.Stream := [
+  { name := "c09.history", model := historyModel, judge := historyJudge },
   { name := "c09.callbacks", model := callbacksModel, judge := callbacksJudge },
   { name := "c09.pairs", model := pairsModel, judge := pairsJudge },
   { name := "c09.directives", model := directivesModel, judge := directivesJudge },
